@@ -17,7 +17,7 @@ type c12Case struct {
 	UTF8, RequireTLS, BinaryMIME, DSN, RRVS bool
 	Size                                    int64  // 0 or N
 	RcptMax                                 int    // 0 or N
-	TLS                                     string // "", "starttls" (available), "implicit" (active), "upgraded" (active via STARTTLS)
+	TLS                                     string // "", "starttls" (available), "implicit" (active), "upgraded" (active via STARTTLS), "wrapped" (active through a TLS listener of the caller's, Server.TLSConfig unset)
 	InsecureAuth                            bool
 	AuthBackend                             bool
 	LMTP                                    bool
@@ -25,7 +25,7 @@ type c12Case struct {
 }
 
 func c12Expected(c c12Case) []string {
-	active := c.TLS == "implicit" || c.TLS == "upgraded"
+	active := c.TLS == "implicit" || c.TLS == "upgraded" || c.TLS == "wrapped"
 	caps := []string{"PIPELINING", "8BITMIME", "ENHANCEDSTATUSCODES", "CHUNKING"}
 	if c.TLS == "starttls" {
 		caps = append(caps, "STARTTLS")
@@ -74,6 +74,8 @@ func c12Run(c c12Case) Verdict {
 		cfg.TLS = "starttls"
 	case "implicit":
 		cfg.TLS = "implicit"
+	case "wrapped":
+		cfg.TLS = "wrapped"
 	}
 	script := harness.Script{AuthSession: c.AuthBackend, Mechs: []string{"PLAIN", "LOGIN"}, LMTPSession: c.LMTP,
 		SASL: []harness.SASLScript{{SkipChallengesWithIR: true}, {SkipChallengesWithIR: true}}}
@@ -101,7 +103,7 @@ func c12Run(c c12Case) Verdict {
 		}
 		w.WaitQuiet()
 	}
-	active := c.TLS == "implicit" || c.TLS == "upgraded"
+	active := c.TLS == "implicit" || c.TLS == "upgraded" || c.TLS == "wrapped"
 	fail := func(v Verdict) Verdict { w.Finish(); return v }
 	// 1. the capability list
 	out, st := w.Exchange([]byte(g + " cli\r\n"))
@@ -181,6 +183,38 @@ func c12Run(c c12Case) Verdict {
 		p.lines = append(p.lines, "RCPT TO:<onemore@d>", "RSET")
 		p.want = append(p.want, expect{Code: 452, What: "recipient over RCPTMAX"}, expect{Code: 250})
 		probes = append(probes, p)
+	}
+	// a line mixing parameters of enabled extensions with one of a disabled
+	// extension is refused with 504 whichever the server looks at first (three
+	// times: it may look at them in any order); no RSET follows - a refused
+	// MAIL opens nothing - and an ordinary DATA transaction must work afterwards
+	{
+		var on []string
+		off := ""
+		for _, x := range []struct {
+			enabled bool
+			param   string
+		}{{c.BinaryMIME, "BODY=BINARYMIME"}, {c.UTF8, "SMTPUTF8"}, {c.DSN, "RET=HDRS"}, {c.DSN, "ENVID=e1"}, {c.RequireTLS && active, "REQUIRETLS"}} {
+			if x.enabled {
+				on = append(on, x.param)
+			} else if off == "" && !(x.param == "REQUIRETLS" && c.RequireTLS) && !(x.param == "ENVID=e1") {
+				off = x.param
+			}
+		}
+		if off != "" {
+			for i := 0; i < 3; i++ {
+				ps := append(append([]string(nil), on...), off)
+				// rotate so that the disabled one is not always last on the line
+				ps = append(ps[i%len(ps):], ps[:i%len(ps)]...)
+				probes = append(probes, c12Probe{fmt.Sprintf("mixed-mail-%d", i), []string{"MAIL FROM:<a@b> SIZE=1 " + strings.Join(ps, " ")},
+					[]expect{{Code: 504, What: off + " of a disabled extension among enabled ones"}}})
+			}
+		}
+		if c.DSN != c.RRVS {
+			probes = append(probes, c12Probe{"mixed-rcpt", []string{"MAIL FROM:<a@b>", "RCPT TO:<c@d> NOTIFY=FAILURE RRVS=2014-04-03T23:01:00Z", "RSET"},
+				[]expect{{Code: 250}, {Code: 504, What: "one of DSN/RRVS disabled"}, {Code: 250}}})
+		}
+		probes = append(probes, c12Probe{"data", []string{"MAIL FROM:<a@b>", "RCPT TO:<c@d>", "DATA\r\nhi\r\n."}, []expect{{Code: 250}, {Code: 250}, {Code: 354}, {Code: 250}}})
 	}
 	var order []int
 	for _, x := range c.Order {
@@ -281,7 +315,7 @@ func c12All() []c12Case {
 	for bits := 0; bits < 32; bits++ {
 		for _, size := range []int64{0, 1000} {
 			for _, rm := range []int{0, 2} {
-				for _, tls := range []string{"", "starttls", "implicit"} {
+				for _, tls := range []string{"", "starttls", "implicit", "wrapped"} {
 					for _, ins := range []bool{false, true} {
 						for _, ab := range []bool{false, true} {
 							for _, lmtp := range []bool{false, true} {
@@ -311,7 +345,7 @@ func init() {
 
 func TestC12(t *testing.T) {
 	registerAll()
-	st.Rule = "cases = all 3072 configurations (5 extension flags x size limit x recipient limit x TLS none/available/active x AllowInsecureAuth x auth-capable backend x SMTP/LMTP), each: exact capability set vs a table, HELO single-line, one probe per extension, AUTH and STARTTLS probes, capability list again after an upgrade; thorough adds random probe orders and TLS activated through STARTTLS; non-trivial = configuration with at least one optional capability; distinct = hash of the configuration"
+	st.Rule = "cases = all 4096 configurations (5 extension flags x size limit x recipient limit x TLS none/available/active/active through a caller-wrapped listener x AllowInsecureAuth x auth-capable backend x SMTP/LMTP), each: exact capability set vs a table, HELO single-line, one probe per extension, lines mixing parameters of enabled and disabled extensions, a DATA transaction after them, AUTH and STARTTLS probes, capability list again after an upgrade; thorough adds random probe orders and TLS activated through STARTTLS; non-trivial = configuration with at least one optional capability; distinct = hash of the configuration"
 	if !regress(t, "C12") {
 		return
 	}
@@ -337,7 +371,7 @@ func TestC12(t *testing.T) {
 		if c.TLS == "implicit" && rapid.Bool().Draw(rt, "upgraded") {
 			c.TLS = "upgraded"
 		}
-		c.Order = rapid.Permutation(seqInts(15)).Draw(rt, "order")
+		c.Order = rapid.Permutation(seqInts(20)).Draw(rt, "order")
 		return c
 	})
 }
